@@ -10,6 +10,8 @@ import (
 	"errors"
 	"fmt"
 	"os"
+	"strconv"
+	"syscall"
 
 	"github.com/thomasjungblut/go-sstables/recordio"
 	rProto "github.com/thomasjungblut/go-sstables/recordio/proto"
@@ -59,6 +61,10 @@ func main() {
 	if err != nil {
 		panic(err)
 	}
+	// a runner that replaced itself after an abandoned session (see runDB) continues where it stopped
+	from, _ = strconv.Atoi(os.Getenv("VERIF_RUNNER_FROM"))
+	flushes, _ = strconv.Atoi(os.Getenv("VERIF_RUNNER_FLUSHES"))
+	compactions, _ = strconv.Atoi(os.Getenv("VERIF_RUNNER_COMPACTIONS"))
 	installFault(p.Fault)
 	switch p.Kind {
 	case "db", "recover":
@@ -70,11 +76,12 @@ func main() {
 	}
 }
 
+var from, flushes, compactions int
+
 func installFault(f *prog.WriterFault) {
 	if f == nil {
 		return
 	}
-	flushes, compactions := 0, 0
 	sstables.VerifSetWriterOpenHook(func(w *sstables.SSTableStreamWriter) {
 		isCompaction := len(w.VerifBasePath()) > 0 && containsCompaction(w.VerifBasePath())
 		n := 0
@@ -116,6 +123,9 @@ func runDB(p *prog.Program, dir string) {
 	ops := p.Ops()
 	var db *simpledb.DB
 	for _, op := range ops {
+		if op.Index < from {
+			continue
+		}
 		mark(prog.CallMarker(op.Index))
 		var err error
 		switch op.Kind {
@@ -160,9 +170,21 @@ func runDB(p *prog.Program, dir string) {
 		}
 		mark(prog.RetMarker(op.Index, res(err)))
 		if p.Kind == "db" && p.Sessions[op.Session].NoClose && op.Step != nil && op.Step == &p.Sessions[op.Session].Steps[len(p.Sessions[op.Session].Steps)-1] {
-			// abandon the handle at a quiescent point: nothing of it touches the directory afterwards
+			// abandon the handle at a quiescent point: the application goes away without Close and is started again.
+			// The runner replaces its own process image for that (execve: same pid, every descriptor, lock and
+			// goroutine of the old handle is gone, as after a restart of the application).
 			_ = db.VerifWaitFlushIdle()
 			db = nil
+			if op.Index+1 < len(ops) {
+				env := append(os.Environ(), fmt.Sprintf("VERIF_RUNNER_FROM=%d", op.Index+1),
+					fmt.Sprintf("VERIF_RUNNER_FLUSHES=%d", flushes), fmt.Sprintf("VERIF_RUNNER_COMPACTIONS=%d", compactions))
+				self, err := os.Executable()
+				if err == nil {
+					err = syscall.Exec(self, os.Args, env)
+				}
+				fmt.Fprintln(os.Stderr, "cannot restart the runner:", err)
+				os.Exit(6)
+			}
 		}
 	}
 }
